@@ -44,8 +44,8 @@ Groups == {"sort", "special", "sorterr", "keysort", "list", "listel", "listidx",
            "lol", "misc", "ordpair", "ordel", "ordlol"}
 
 OpsOf(g) ==
-  CASE g = "sort"    -> {"sort", "sort_v", "list_to_ord_set", "list_to_set", "is_ordset"}
-    [] g = "special" -> {"sort", "sort_v", "list_to_set"}
+  CASE g = "sort"    -> {"sort", "sort_v", "list_to_set", "is_ordset"}
+    [] g = "special" -> {"sort", "sort_v", "list_to_set", "list_to_ord_set"}     \* list_to_ord_set/2 is sort/2
     [] g = "sorterr" -> {"sort_partial", "sort_nonlist", "sort_improper", "keysort_partial", "keysort_nonlist",
                          "keysort_nonpair", "keysort_varelem"}
     [] g = "keysort" -> {"keysort", "keysort_v", "pairs_keys_values", "pairs_keys", "pairs_values", "pairs_zip",
@@ -271,11 +271,13 @@ ModelOf(m, acts) == IF acts = <<>> THEN m
 (* initial maps built by list_to_assoc/2 (perfectly balanced trees of 4 or 5 nodes, so that  *)
 (* deletions rebalance); the empty start explores every insertion order.  quick: all         *)
 (* histories of length <= 4 from the empty map and <= 3 from the built maps; thorough: length *)
-(* <= 5 from the empty map (the first two actions are insertions) and <= 4 from the built     *)
-(* maps; sim: random histories of length 30 over 6 keys, including value replacement          *)
+(* <= 5 from the empty map (the first two actions are insertions), <= 4 from the map of all   *)
+(* keys and <= 3 from the two 4-key maps; sim: random walks of length 30 over 6 keys,         *)
+(* including value replacement (TLC prints every successor of every visited state)           *)
 PairsOf(ks) == [i \in 1..Len(ks) |-> Pair(ks[i], IntT(100 + i))]
 Inits == {<<>>, PairsOf(Keys), PairsOf(SubSeq(Keys, 1, 4)), PairsOf(SubSeq(Keys, 2, Len(Keys)))}
-HistLen(init) == IF init = <<>> \/ Tier = "sim" THEN MaxLen ELSE MaxLen - 1
+HistLen(init) == IF init = <<>> \/ Tier = "sim" THEN MaxLen
+                 ELSE IF Tier = "thorough" /\ Len(init) < Len(Keys) THEN MaxLen - 2 ELSE MaxLen - 1
 Puts(step) == {Act("put", Keys[i], IntT(step)) : i \in 1..Len(Keys)}
 Actions(init, m, step) ==
   IF Tier = "thorough" /\ init = <<>> /\ step <= 2 THEN Puts(step)
@@ -297,9 +299,9 @@ Next ==
 Emit ==
   /\ (phase = "case" /\ Applicable) =>
        LET r == Res IN
-       PrintT(ToJson([g |-> grp, op |-> op, args |-> Args, k |-> r.k, v |-> r.v, cls |-> Cls]))
+       PrintT(ToJson([g |-> grp, op |-> op, args |-> PkSeq(Args), k |-> r.k, v |-> Pk(r.v), cls |-> Cls]))
   /\ phase = "hist" =>         \* every history prefix is a vector: the driver observes the state after its last action
-       PrintT(ToJson([g |-> "assoc", op |-> "hist", args |-> <<LT(y), LT(x)>>, k |-> "hist",
-                      v |-> LT(MapPairs(ModelOf(MapOfPairs(y), x))),
+       PrintT(ToJson([g |-> "assoc", op |-> "hist", args |-> PkSeq(<<LT(y), LT(x)>>), k |-> "hist",
+                      v |-> Pk(LT(MapPairs(ModelOf(MapOfPairs(y), x)))),
                       cls |-> "i" \o ToString(Len(y))]))
 =============================================================================
